@@ -32,6 +32,7 @@ type PropSpec struct {
 	Replays    map[string]string // obligation regexp -> replay driver name
 	NoClaim    []string          // obligation regexps that are attempted but not claimed
 	Specs      []string          // spec files to load (base names); empty: all
+	Theorems   []string          // theorem names to prove in this property (or "all")
 	Claim      []string          // if set: only obligations matching one of these regexps belong to this property
 }
 
@@ -72,6 +73,8 @@ func readProp(path string) (*PropSpec, error) {
 			ps.Bounded = append(ps.Bounded, rest)
 		case "claim":
 			ps.Claim = append(ps.Claim, rest)
+		case "theorems":
+			ps.Theorems = append(ps.Theorems, strings.Fields(rest)...)
 		case "specs":
 			ps.Specs = append(ps.Specs, strings.Fields(rest)...)
 		case "noclaim":
@@ -316,6 +319,17 @@ func cmdCheck(args []string) int {
 			return 2
 		}
 		obs = append(obs, ob)
+	}
+	for _, th := range prog.Theorems {
+		want := false
+		for _, n := range ps.Theorems {
+			if n == "all" || n == th.Name {
+				want = true
+			}
+		}
+		if want {
+			obs = append(obs, prog.TheoremObligation(th))
+		}
 	}
 	if len(ps.Claim) > 0 {
 		var res []*regexp.Regexp
